@@ -522,6 +522,15 @@ func (ex *Exec) callSSA(caller *frame, callpos token.Pos, fn *ssa.Function, args
 	if fn.Blocks == nil {
 		ex.eng.buildFn(fn)
 		if fn.Blocks == nil {
+			if ex.initMode {
+				// package initialisers touch the operating system (os.Stdin, ...): such
+				// values are left zero; the targets never use them
+				res := fn.Signature.Results()
+				if res.Len() == 0 {
+					return nil
+				}
+				return zero(res)
+			}
 			ex.unsupported("no code for function %s", fn)
 		}
 	}
